@@ -12,18 +12,18 @@ namespace CC.Properties.C06Stack
 open CC
 open CC.Spec.Seq (SOp Out)
 
-theorem step_nofault_ledger (s : Stack) (op : SOp) (m : Mem) (hinv : s.Inv) (hlive : 0 < m.live) :
+theorem step_nofault_ledger (s : Stack) (op : SOp) (m : Mem) (hinv : s.Inv) :
     (s.step op m).2.2.fault = m.fault ∧ (s.step op m).2.2.live = m.live ∧ (s.step op m).2.1.Inv := by
-  obtain ⟨_, _, _, s4, s5, s6, _⟩ := C09Stack.step_refines s op m hinv hlive
+  obtain ⟨_, _, _, s4, s5, s6, _⟩ := C09Stack.step_refines s op m hinv
   exact ⟨s6, s5, s4⟩
 
-theorem history_nofault (ops : List SOp) (s : Stack) (m : Mem) (hinv : s.Inv) (hlive : 0 < m.live)
+theorem history_nofault (ops : List SOp) (s : Stack) (m : Mem) (hinv : s.Inv)
     (hf : m.fault = false) : (s.run ops m).2.2.fault = false ∧ (s.run ops m).2.1.Inv := by
-  obtain ⟨_, _, h3, _, h5⟩ := C09Stack.history_refines ops s m hinv hlive
+  obtain ⟨_, _, h3, _, h5⟩ := C09Stack.history_refines ops s m hinv
   exact ⟨by rw [h5]; exact hf, h3⟩
 
-theorem history_ledger (ops : List SOp) (s : Stack) (m : Mem) (hinv : s.Inv) (hlive : 0 < m.live) :
-    (s.run ops m).2.2.live = m.live := (C09Stack.history_refines ops s m hinv hlive).2.2.2.1
+theorem history_ledger (ops : List SOp) (s : Stack) (m : Mem) (hinv : s.Inv) :
+    (s.run ops m).2.2.live = m.live := (C09Stack.history_refines ops s m hinv).2.2.2.1
 
 /-- **no leak**: construct, run any interleaving under any refusal schedule, destroy -/
 theorem destroy_releases_all (cap : Nat) (grow : Nat → Nat) (exGe : Nat → Bool) (m0 : Mem) (s0 : Stack)
@@ -54,13 +54,13 @@ theorem filter_ledger (p : Nat → Bool) (s : Stack) (dgrow : Nat → Nat) (dexG
   · rw [h1]; simp [s3, s4]
 
 theorem destroy_ledger (s : Stack) (m : Mem) (hlive : 3 ≤ m.live) :
-    (s.destroy m).live = m.live - 3 ∧ (s.destroy m).fault = m.fault := Stack.destroy_spec s m hlive
+    (s.destroy m).live = m.live - 3 ∧ (s.destroy m).fault = m.fault := Stack.destroy_spec s m
 
 /-- (c) `cc_stack_destroy_cb`: every live element exactly once, bottom to top, then all three
 blocks released (the header through the configured allocator — Q2) -/
 theorem destroy_cb_visits_each_once (s : Stack) (m : Mem) (hinv : s.Inv) (hlive : 3 ≤ m.live) :
     (s.destroyCb m).1 = s.abs ∧ (s.destroyCb m).2.live = m.live - 3 ∧ (s.destroyCb m).2.fault = m.fault :=
-  Stack.destroyCb_spec s m hinv hlive
+  Stack.destroyCb_spec s m hinv
 
 /-- (c) `cc_stack_map`, and the predicate calls of `cc_stack_filter` -/
 theorem map_visits_each_once (s : Stack) (m : Mem) (hinv : s.Inv) : (s.map m).1 = s.abs ∧ (s.map m).2 = m :=
